@@ -1,5 +1,64 @@
 import KrroodVerif.Sexp
+import KrroodVerif.Model.Descriptor
+import KrroodVerif.Drive.C15
+/-!
+C16 driver. Case: `(w <schema and objs as in C15> (field f) (obj a) (init x…) (ops (append x) (extend x…)
+(insert i x) (setitem i x) (assign x…) (assignSelf) (iadd x…) (iaddAlias x…)))` (`add`/`update` are accepted as
+synonyms of `append`/`extend` for set fields).
+Output `C[contents]|R[f:s:t,…]`: contents in order for a list field, sorted for a set field; relation triples sorted.
+`model=` is the code as it is (all quirks on), `model_fixed=` all quirks off, `model_fix_setter=` /
+`model_fix_inplace=` the two partial repairs.
+-/
 namespace KrroodVerif.Drive.C16
-/-- stub: replaced when the model for C16 is built -/
-def run (_ : Sexp) : String := "model=unimplemented\tspec=unimplemented\ttrig="
+open KrroodVerif.PD KrroodVerif.Drive.C15
+
+def parseCOp : Sexp → Option COp
+  | .list [.atom "append", x] => do pure (.append (← x.asNat?))
+  | .list [.atom "add", x] => do pure (.append (← x.asNat?))
+  | .list (.atom "extend" :: xs) => do pure (.extend (← parseNats xs))
+  | .list (.atom "update" :: xs) => do pure (.extend (← parseNats xs))
+  | .list [.atom "insert", i, x] => do pure (.insert (← i.asInt?) (← x.asNat?))
+  | .list [.atom "setitem", i, x] => do pure (.setitem (← i.asInt?) (← x.asNat?))
+  | .list (.atom "assign" :: xs) => do pure (.assign (← parseNats xs))
+  | .list [.atom "assignSelf"] => some .assignSelf
+  | .list (.atom "iadd" :: xs) => do pure (.iadd (← parseNats xs))
+  | .list (.atom "iaddAlias" :: xs) => do pure (.iaddAlias (← parseNats xs))
+  | _ => none
+
+def showContents (isSet : Bool) (c : List Nat) : String :=
+  "C[" ++ ",".intercalate ((if isSet then hashOrder c else c).map toString) ++ "]"
+
+def elems : COp → List Nat
+  | .append x => [x] | .extend xs => xs | .insert _ x => [x] | .setitem _ x => [x]
+  | .assign xs => xs | .assignSelf => [] | .iadd xs => xs | .iaddAlias xs => xs
+
+def run (s : Sexp) : String :=
+  match s with
+  | .list (.atom "w" :: items) =>
+    match parseSchema items, parseWorld items, (Sexp.field? items "ops").bind (·.mapM parseCOp),
+          (Sexp.field? items "field").bind (·.head?) |>.bind Sexp.asNat?,
+          (Sexp.field? items "obj").bind (·.head?) |>.bind Sexp.asNat?,
+          (Sexp.field? items "init").bind parseNats with
+    | some S, some W, some ops, some f, some a, some init =>
+      let isSet := S.kindOf f == .set
+      let wf := f < S.fields.length && a < W.size && S.kindOf f != .single &&
+        (init ++ ops.flatMap elems).all (· < W.size) && ops.all (·.applicable isSet) &&
+        W.rt.all (fun r => match r with | some x => x < W.size | none => true)
+      if !wf then "error=ill-formed-case" else
+      let R := schemaRules S W
+      let fuel := fuelFor S W
+      let start (Q : Quirks) : CState := runC Q isSet ⟨[], []⟩ (init.map .append)
+      let out (Q : Quirks) : String :=
+        let σ := runC Q isSet (start Q) ops
+        showContents isSet σ.c ++ "|" ++ showRels (PD.run R fuel (σ.calls.map fun t => (f, a, t)))
+      let sp := specC isSet (specC isSet ⟨[], []⟩ (init.map .append)) ops
+      let cl := closure R fuel (sp.calls.map fun t => (f, a, t))
+      let spec := if cl.2 then showContents isSet sp.c ++ "|" ++ showRels cl.1 else "spec-diverged"
+      let trig := (if trigSelfAssign ops then ["F-C16-1"] else []) ++ (if trigIadd ops then ["F-C16-2"] else []) ++
+        (if trigListOrder isSet ops then ["F-C16-3"] else []) ++ (if trigBypass ops then ["F-C16-4"] else [])
+      s!"model={out Quirks.asIs}\tspec={spec}\ttrig={",".intercalate trig}\tmodel_fixed={out Quirks.none}" ++
+      s!"\tmodel_fix_setter={out ⟨false, false, true⟩}\tmodel_fix_inplace={out ⟨true, true, false⟩}"
+    | _, _, _, _, _, _ => "error=bad-case"
+  | _ => "error=bad-case"
+
 end KrroodVerif.Drive.C16
